@@ -19,7 +19,7 @@ ID = 'C19'
 LEVEL = 'exploration'
 RULE = (
     'File sets: 5 datasets (different numbers of rise and recession levels) '
-    'x 10 parameter files (thorough: all 49 same-type pairs of '
+    'x 12 parameter files (thorough: all 49 same-type pairs of '
     'specific-yield and transmissivity sets; spline with 4..7 Sy knots and 2..5 K knots, knots '
     'with 7-10 significant digits, a spline whose overshoot makes the '
     'simulated recession non-monotone, two PEATCLSM sets) x {rise, curves}: the real `spowtd pestfiles ... '
@@ -54,7 +54,8 @@ PARAMS = [('inside', 'field'), ('straddle-top', 'two-knots'),
           ('all-below', 'five-knots'), ('seven-knots', 'five-knots'),
           ('published', 'published-high'), ('corner', 'other'),
           ('long-digits', 'long-digits'), ('overshoot', 'field'),
-          ('twelve-knots', 'eleven-knots'), ('integer-knots', 'integer')]
+          ('twelve-knots', 'eleven-knots'), ('integer-knots', 'integer'),
+          ('inside', 'tiny'), ('corner', 'tiny-ks')]
 CURVATURE = 2.36
 STALE = '# Recession curve simulation vector\n- 111.5\n# Rise curve simulation vector\n- 222.5\n'
 MANT = '1234567890123456789'
@@ -239,6 +240,8 @@ CRAFTED = [
     [1e-300, 0.0, 0.0, 1.0],
     [0.1, 0.2, 0.30000000000000004, 123456789.12345679, -1e-7],
     [5.0, 0.0],
+    # a master curve of a single level: one observation per curve
+    [1.5625],
     # more than a thousand observations, negative ones among them
     # (observation names reach five characters)
     [(-1) ** k * (0.5 + 0.125 * k) for k in range(1105)],
